@@ -21,6 +21,13 @@ Streams
             one Checker / H then P with a fresh Checker each, the AST of H dropped (gc) before P is parsed; the
             diagnostics of P must be equal, the process-level containers must keep their entries, and a key component
             that looks like an address must belong to a live object
+  memokeys: every store `<memo table>[key] = value` with the parameters the value is computed from and those the key
+            mentions -> Generated/CacheKeys.lean; obligation `memo_keys_cover_parameters` (waivers registered in Lean)
+  routes  : one typeshed / stub member reached through a class-level route (override check, type[X] receiver, class
+            object) and an instance-level route (protocol compatibility, attribute of an instance, call): P fresh vs P
+            after one H of the other level with the same Checker, both directions
+  memo-key: the methods that store into memo tables are wrapped in this process; two fresh computations stored under the
+            same key with different arguments and different values are a candidate
   unify   : value.py unify_bounds_maps against the pure Lean `unifyBM`; its arguments must be unchanged afterwards
             and the result must not share a list with them
   memo    : Checker.make_type_object / ArgSpecCache.get_argspec / _get_generic_bases_cached driven with query
@@ -51,7 +58,7 @@ PROP = "C10"
 LEAN_PROP = "PyaModel.Props.C10"
 NAMESPACE = "Pya.C10"
 LEAN_TARGETS = ["PyaModel.Spec.CacheSpec", "PyaModel.Generated.SetSites", "PyaModel.Generated.CacheSites",
-                "PyaModel.Generated.CacheVariant"]
+                "PyaModel.Generated.CacheVariant", "PyaModel.Generated.CacheKeys"]
 CACHE_FILES = ["pyanalyze/checker.py", "pyanalyze/arg_spec.py", "pyanalyze/type_object.py", "pyanalyze/typeshed.py",
                "pyanalyze/reexport.py", "pyanalyze/suggested_type.py"]
 SCAN_FILES = [
@@ -607,6 +614,100 @@ def scan_id_keys(repo):
     return res
 
 
+def _names_in(e):
+    return {n.id for n in ast.walk(e) if isinstance(n, ast.Name)}
+
+def memo_attr_names(repo):
+    """Attribute / module-level names of the containers registered as memo tables (per-Checker and process-level)."""
+    names = {k.split(".", 1)[1] for k, kind in cache_kinds().items() if kind in IMMUTABLE_KINDS}
+    pk = proc_kinds()
+    for f, name, tag in scan_proc_state(repo):
+        if pk.get((f, name), "memo") == "memo":
+            if tag.startswith("instance:"):
+                names |= set(tag[tag.index("(") + 1:-1].split(","))
+            elif tag == "container":
+                names.add(name)
+    return names
+
+
+def scan_memo_keys(repo, memo_attrs=None):
+    """[(file, function, cache attribute, container expression, key expression, parameters the stored value is computed
+    from, parameters that occur in the key or in the container expression)] for every store `<memo table>[key] = value`."""
+    if memo_attrs is None:
+        memo_attrs = memo_attr_names(repo)
+    out = []
+    for f, tree in _pyanalyze_trees(repo).items():
+        parents = {}
+        for p in ast.walk(tree):
+            for c in ast.iter_child_nodes(p):
+                parents[c] = p
+        for fn in [n for n in ast.walk(tree) if isinstance(n, (ast.FunctionDef, ast.AsyncFunctionDef))]:
+            # qualified name
+            q, n = [fn.name], fn
+            while n in parents:
+                n = parents[n]
+                if isinstance(n, (ast.ClassDef, ast.FunctionDef, ast.AsyncFunctionDef)):
+                    q.append(n.name)
+            qual = ".".join(reversed(q))
+            params = [a.arg for a in fn.args.posonlyargs + fn.args.args + fn.args.kwonlyargs]
+            # own nodes only
+            own = []
+            todo = list(ast.iter_child_nodes(fn))
+            while todo:
+                x = todo.pop()
+                own.append(x)
+                if not isinstance(x, (ast.FunctionDef, ast.AsyncFunctionDef, ast.ClassDef, ast.Lambda)):
+                    todo.extend(ast.iter_child_nodes(x))
+            assigns = {}   # local name -> list of value expressions
+            for x in own:
+                if isinstance(x, ast.Assign):
+                    for t in x.targets:
+                        tg = [t] if isinstance(t, ast.Name) else list(t.elts) if isinstance(t, (ast.Tuple, ast.List)) else []
+                        for nm in tg:
+                            if isinstance(nm, ast.Name):
+                                assigns.setdefault(nm.id, []).append(x.value)
+                elif isinstance(x, ast.AnnAssign) and isinstance(x.target, ast.Name) and x.value is not None:
+                    assigns.setdefault(x.target.id, []).append(x.value)
+                elif isinstance(x, (ast.For, ast.comprehension)):
+                    for nm in [e for e in ast.walk(x.target) if isinstance(e, ast.Name)]:
+                        assigns.setdefault(nm.id, []).append(x.iter)
+                elif isinstance(x, ast.withitem) and x.optional_vars is not None:
+                    for nm in [e for e in ast.walk(x.optional_vars) if isinstance(e, ast.Name)]:
+                        assigns.setdefault(nm.id, []).append(x.context_expr)
+
+            def closure(expr):
+                seen, todo = set(), list(_names_in(expr))
+                while todo:
+                    nm = todo.pop()
+                    if nm in seen:
+                        continue
+                    seen.add(nm)
+                    for v in assigns.get(nm, []):
+                        todo.extend(_names_in(v))
+                return seen
+            for x in own:
+                if isinstance(x, ast.Assign) and len(x.targets) == 1 and isinstance(x.targets[0], ast.Subscript):
+                    sub = x.targets[0]
+                    cont = sub.value
+                    attr = cont.attr if isinstance(cont, ast.Attribute) else cont.id if isinstance(cont, ast.Name) else None
+                    # a local alias of a registered cache: cache = self.visitor.checker.type_alias_cache
+                    cexpr = cont
+                    if isinstance(cont, ast.Name) and cont.id in assigns:
+                        for v in assigns[cont.id]:
+                            if isinstance(v, ast.Attribute) and v.attr in memo_attrs:
+                                attr, cexpr = v.attr, v
+                    if attr not in memo_attrs:
+                        continue
+                    keyn = closure(sub.slice) | _names_in(cexpr)
+                    valn = closure(x.value)
+                    vp = [p for p in params if p in valn and p not in ("self", "cls")]
+                    kp = [p for p in params if p in keyn and p not in ("self", "cls")]
+                    out.append((f, qual, attr, ast.unparse(cexpr), ast.unparse(sub.slice) if not (isinstance(sub.slice, ast.Name) and sub.slice.id in assigns) else
+                                "%s = %s" % (sub.slice.id, " | ".join(ast.unparse(v) for v in assigns[sub.slice.id])), vp, kp))
+    return sorted(set((a, b, c, d, e, tuple(f), tuple(g)) for a, b, c, d, e, f, g in out))
+
+
+
 def _lean_str(s):
     return '"' + s.replace("\\", "\\\\").replace('"', '\\"') + '"'
 
@@ -647,6 +748,20 @@ def translate(ctx):
         "end Pya.C10.Gen\n"
     )
     lean.write_if_changed(os.path.join(lean.LEAN, "PyaModel", "Generated", "CacheSites.lean"), text)
+    rows = []
+    for f, fn, attr, cexpr, kexpr, vp, kp in scan_memo_keys(pya.REPO):
+        rows.append("  (%s, %s, %s, %s, [%s], [%s])" % (_lean_str(f), _lean_str(fn), _lean_str(attr), _lean_str(cexpr + "[" + kexpr + "]"),
+                                                     ", ".join(_lean_str(x) for x in vp), ", ".join(_lean_str(x) for x in kp)))
+    text = (
+        "/-! Regenerated by harness/props/c10.py `translate` from the live pyanalyze (every store into a container\n"
+        "registered as a memo table); do not edit. -/\n"
+        "namespace Pya.C10.Gen\n\n"
+        "/-- (file, function, memo table, store target `container[key]`, parameters of the function the stored value is\n"
+        "computed from, parameters that occur in the key or in the container expression). -/\n"
+        "def scannedMemoKeys : List (String × String × String × String × List String × List String) := [\n"
+        + ",\n".join(rows) + "\n]\n\nend Pya.C10.Gen\n"
+    )
+    lean.write_if_changed(os.path.join(lean.LEAN, "PyaModel", "Generated", "CacheKeys.lean"), text)
     v = impl_variant()
     text = (
         "/-! Regenerated by harness/props/c10.py `translate` from the live source of\n"
@@ -1024,6 +1139,198 @@ def finish_procstate(ctx, pairs):
                                "container": ch[0], "key": ch[1], "before": ch[2], "after": ch[3]},
                               "process-level state %s: %s -> %s" % (ch[0], ch[2][:200], ch[3][:200]), cls=None, conforms=True,
                               stream="procstate")
+
+
+# ============================================================================================ memo probes and lookup routes
+_ADDR = re.compile(r"0x[0-9a-fA-F]+")
+
+
+class MemoProbe:
+    """Wraps, in this process, every method that stores into a registered memo table (scan_memo_keys). For each call that
+    stored its own result (a fresh computation) it logs (arguments, key, stored value). Two fresh computations that end
+    up under the same key with different arguments and different values mean the key does not determine the value."""
+
+    def __init__(self, rows):
+        self.rows = [r for r in rows if "." in r[1] and not r[1].endswith("__init__")]
+        self.log = {}      # (function, table, key) -> {(args, value): label}
+        self.label = None
+        self.undo = []
+        self.depth = 0
+        self.pending = {}  # stores of the call chain under way: an outer call may overwrite what an inner one stored
+
+    def __enter__(self):
+        seen = set()
+        for f, qual, attr, cexpr, kexpr, vp, kp in self.rows:
+            if qual in seen:
+                continue
+            seen.add(qual)
+            try:
+                mod = importlib.import_module(f[:-3].replace("/", "."))
+                clsname, fname = qual.rsplit(".", 1)
+                cls = mod
+                for part in clsname.split("."):
+                    cls = getattr(cls, part)
+                orig = cls.__dict__[fname]
+            except Exception:
+                continue
+            if not callable(orig):
+                continue
+            setattr(cls, fname, self._wrap(orig, qual, compile(cexpr, "<container>", "eval"), cexpr.split(".")[0]))
+            self.undo.append((cls, fname, orig))
+        return self
+
+    def __exit__(self, *a):
+        for cls, fname, orig in self.undo:
+            setattr(cls, fname, orig)
+        self.undo = []
+
+    def _wrap(self, orig, qual, cont_code, owner):
+        import inspect
+        names = [p for p in inspect.signature(orig).parameters]
+        probe = self
+
+        def wrapper(*args, **kw):
+            env = dict(zip(names, args))
+            env.update(kw)
+            try:
+                cont = eval(cont_code, {}, env)
+                n0 = len(cont)
+            except Exception:
+                cont = None
+            probe.depth += 1
+            try:
+                r = orig(*args, **kw)
+            finally:
+                probe.depth -= 1
+            try:
+                if cont is not None and (len(cont) > n0 or (len(cont) and cont.get(next(reversed(cont))) is r)):
+                    key = next(reversed(cont))
+                    if cont[key] is r:
+                        def short(t, n):   # full text decides (its hash is kept), a prefix is shown
+                            return t if len(t) <= n else t[:n] + "…#" + hashlib.sha256(t.encode()).hexdigest()[:10]
+                        a = ", ".join("%s=%s" % (k, short(_ADDR.sub("0x", repr(v)), 120)) for k, v in env.items()
+                                      if k not in ("self", "ctx", "visitor"))
+                        # which table: one per Checker when it hangs off a per-Checker singleton (`self.…` of Checker,
+                        # ArgSpecCache, TypeshedFinder: compared across Checkers), one per protocol for TypeObject, one per
+                        # object when it hangs off an argument (`val.resolution_cache`)
+                        o = env.get(owner)
+                        tok = repr(getattr(o, "typ", "")) if owner == "self" else id(o)
+                        if _ADDR.search(repr(key)):
+                            tok = id(cont)   # a key that contains an object is comparable inside one table only
+                        probe.pending[(qual, tok, short(repr(key), 300))] = ((a, short(_ADDR.sub("0x", repr(r)), 500)), probe.label)
+            except Exception:
+                pass
+            if probe.depth == 0 and probe.pending:
+                for k3, (av, lab) in probe.pending.items():
+                    probe.log.setdefault(k3, {}).setdefault(av, lab)
+                probe.pending = {}
+            return r
+        wrapper.__wrapped__ = orig
+        return wrapper
+
+    def conflicts(self):
+        out = []
+        for (qual, _tok, key), calls in self.log.items():
+            items = list(calls.items())
+            for i in range(len(items)):
+                for j in range(i + 1, len(items)):
+                    (a1, v1), l1 = items[i]
+                    (a2, v2), l2 = items[j]
+                    if a1 != a2 and v1 != v2:
+                        out.append((qual, key, a1, v1, l1, a2, v2, l2))
+                        break
+                else:
+                    continue
+                break
+        return out
+
+
+# one stub member reached through different routes: (imports, receiver type, member, an overriding definition, call arguments)
+ROUTE_MEMBERS = [
+    ("from collections.abc import Sized", "Sized", "__len__", "def __len__(self) -> int: return 0", ""),
+    ("from collections.abc import Iterable, Iterator", "Iterable[int]", "__iter__", "def __iter__(self) -> Iterator[int]: return iter([])", ""),
+    ("from collections.abc import Container", "Container[int]", "__contains__", "def __contains__(self, x: object) -> bool: return True", "1"),
+    ("from typing import SupportsAbs", "SupportsAbs[int]", "__abs__", "def __abs__(self) -> int: return 0", ""),
+    ("from typing import SupportsIndex", "SupportsIndex", "__index__", "def __index__(self) -> int: return 0", ""),
+    ("from collections.abc import Hashable", "Hashable", "__hash__", "def __hash__(self) -> int: return 0", ""),
+    ("", "str", "upper", "def upper(self) -> str: return self", ""),
+    ("", "list[int]", "append", "def append(self, x: int) -> None: pass", "1"),
+    ("", "dict[str, int]", "get", None, "'k'"),
+]
+ROUTES_CLASS = ("override", "type-receiver", "class-object")
+ROUTES_INSTANCE = ("protocol", "instance-attribute", "call")
+
+
+def route_program(mi, route, k):
+    imp, typ, member, override, cargs = ROUTE_MEMBERS[mi]
+    base = typ.split("[")[0]
+    L = ["from typing_extensions import reveal_type"] + ([imp] if imp else [])
+    if route == "override":
+        if override is None:
+            return None
+        L += ["class Sub%d(%s):" % (k, typ), "    " + override]
+    elif route == "type-receiver":
+        L += ["def f%d(t: type[%s]) -> None:" % (k, base), "    reveal_type(t.%s)" % member]
+    elif route == "class-object":
+        L += ["def f%d() -> None:" % k, "    reveal_type(%s.%s)" % (base, member)]
+    elif route == "protocol":
+        if override is None or not imp:
+            return None
+        L += ["class Impl%d:" % k, "    " + override, "def want%d(x: %s) -> None: ..." % (k, typ), "def f%d() -> None:" % k,
+              "    want%d(Impl%d())" % (k, k), "    want%d(3.5)" % k]
+    elif route == "instance-attribute":
+        L += ["def f%d(x: %s) -> None:" % (k, typ), "    reveal_type(x.%s)" % member]
+    else:
+        L += ["def f%d(x: %s) -> None:" % (k, typ), "    reveal_type(x.%s(%s))" % (member, cargs)]
+    return "\n".join(L) + "\n"
+
+
+def routes_stream(ctx, probe):
+    """P fresh vs P after one H with the same Checker, where H reaches the same stub member through a route of the other
+    level (class-level: override check, type[X] receiver, class object; instance-level: protocol compatibility,
+    attribute of an instance, call): both directions."""
+    rng = ctx.rng
+    pairs = []
+    for mi in range(len(ROUTE_MEMBERS)):
+        for rc in ROUTES_CLASS:
+            for ri in ROUTES_INSTANCE:
+                pairs += [(mi, rc, ri), (mi, ri, rc)]
+    if not ctx.big():
+        first = [(0, "override", "protocol")]       # the smallest known mix always runs
+        pairs = first + rng.sample([p for p in pairs if p not in first], 23)
+    fresh = {}
+    k = itertools.count(500000)
+    for mi, rh, rp in pairs:
+        H, P = route_program(mi, rh, next(k)), route_program(mi, rp, mi * 10 + (ROUTES_CLASS + ROUTES_INSTANCE).index(rp))
+        if H is None or P is None:
+            continue
+        probe.label = P
+        if P not in fresh:
+            fresh[P] = check_program(P, new_kwargs())
+        kw = new_kwargs()
+        probe.label = H
+        check_program(H, kw)
+        probe.label = P
+        r = check_program(P, kw)
+        ctx.count(1, **{"route_%s_then_%s" % (rh, rp): 1})
+        ctx.corr("routes")
+        if fresh[P]:
+            ctx.nontriv("route|%d|%s|%s" % (mi, rh, rp))
+        if r != fresh[P]:
+            ctx.candidate({"program": P, "history": [H], "run": "history", "fresh": fresh[P], "other": r},
+                          "diagnostics of a program differ after an unrelated program that reached %s.%s through another "
+                          "route (%s before %s): %r / %r" % (ROUTE_MEMBERS[mi][1], ROUTE_MEMBERS[mi][2], rh, rp,
+                                                             [d[3][:120] for d in fresh[P]], [d[3][:120] for d in r]),
+                          cls=None, conforms=True, stream="routes")
+
+
+def probe_candidates(ctx, probe):
+    for qual, key, a1, v1, l1, a2, v2, l2 in probe.conflicts()[:3]:
+        ctx.candidate({"kind": "memo-key", "function": qual, "key": key, "calls": [[a1, v1], [a2, v2]],
+                       "program": l2 or "", "history": [], "programs": [l1, l2]},
+                      "the key of a memo table does not determine the stored value: %s stored %s for (%s) and %s for (%s) "
+                      "under the same key %s" % (qual, v1[:120], a1[:120], v2[:120], a2[:120], key[:120]),
+                      cls=None, conforms=True, stream="memo-key")
 
 
 # ============================================================================================ protocol worlds (Model B)
@@ -2518,6 +2825,7 @@ def _run(ctx, with_model):
         w.load(ctx)
     watch_sites, kinds = scan_caches(pya.REPO), cache_kinds()
     proc_pairs = start_procstate(ctx)      # fresh interpreters, in the background
+    probe = MemoProbe(scan_memo_keys(pya.REPO))
     api_sites(ctx, B, post)
     api_unify(ctx, B, post)
     api_memo(ctx, B, post)
@@ -2526,7 +2834,11 @@ def _run(ctx, with_model):
     chk0 = pya.make_checker()
     for w in e2e_worlds:
         w.wellfounded = w.ranks(member_orders(w, chk0)) is not None
-    pending = e2e(ctx, B, post, e2e_worlds, with_model, watch_sites, kinds)
+    with probe:
+        routes_stream(ctx, probe)
+        probe.label = None
+        pending = e2e(ctx, B, post, e2e_worlds, with_model, watch_sites, kinds)
+    probe_candidates(ctx, probe)
     finish_procstate(ctx, proc_pairs)
     if with_model:
         B.run()
@@ -2567,7 +2879,17 @@ def replay(ctx, data):
     case = data["case"]
     out = {"case": {k: v for k, v in case.items() if k in ("run", "query", "history_queries", "line", "col")}}
     differs = False
-    if case.get("kind") == "process-history":
+    if case.get("kind") == "memo-key":
+        probe = MemoProbe(scan_memo_keys(pya.REPO))
+        with probe:
+            for src in case.get("programs", []):
+                if src:
+                    probe.label = src
+                    check_program(src, new_kwargs())
+        conf = [c for c in probe.conflicts() if c[0] == case["function"]]
+        out.update(conflicts=[[c[0], c[1], c[2], c[3][:200], c[5], c[6][:200]] for c in conf[:3]])
+        differs = bool(conf)
+    elif case.get("kind") == "process-history":
         jobs = {"alone": start_proc_job(ctx, {"history": [], "program": case["program"], "share": True, "watch": False}, "rp-alone"),
                 "after": start_proc_job(ctx, {"history": case["history"], "program": case["program"], "share": case.get("share", True),
                                               "watch": True}, "rp-after")}
